@@ -574,6 +574,11 @@ class Program:
             if isinstance(c, dict) and c.get('kind') == 'FieldDecl':
                 t, is_ref, _ = parse_type(node_type(c))
                 t = self.fix_type(t)
+                if t[0] == 'eigdyn':
+                    shp = (self.options.get('dyn_shapes') or {}).get(cn, {}).get(c['name'])
+                    if shp:
+                        # bounded stand-in: a dynamic-size Eigen member is given the fixed size the spec states for this run
+                        t = ('eig', t[1], shp[0], shp[1])
                 if is_ref:
                     t = ('ptr', t)
                 fields.append((c['name'], t))
@@ -1349,8 +1354,11 @@ class FnTranslator:
                 rb = self.stmt({'kind': 'ReturnStmt', 'inner': [b]})
                 self.rule('return of a conditional expression with aggregate operands -> if/else with two returns')
                 return pre + [('if', cond, ra, rb)]
-            if t[0] == 'eig':
+            if t[0] in ('eig', 'eigdyn'):
                 ev = self.eig(e)
+                if t[0] == 'eigdyn':
+                    t = ('eig', ev.st, ev.rows, ev.cols)       # dynamic-size return type: the value has the (bound) size of the returned expression
+                    self.rule('dynamic-size Eigen value returned: it has the fixed size of the returned expression (bounded stand-in)')
                 nm = self.tmp(t)
                 st = [('decl', nm, t, None)] + self.eig_store(('var', nm, t), t, ev)
                 return self.flush() + st + [('return', ('var', nm, t))]
@@ -1924,6 +1932,19 @@ class FnTranslator:
             ft = self.T(n)
             name = n['name']
             b0 = self.strip(base)
+            if ft[0] == 'eigdyn':
+                # a dynamic-size Eigen member whose size the spec binds (dyn_shapes): use the record's field type
+                bt = self.T(base)
+                if bt[0] == 'ptr':
+                    bt = bt[1]
+                if bt[0] == 'struct':
+                    try:
+                        self.prog.need_type(bt)
+                    except ExtractError:
+                        pass
+                    for fn, fty in self.prog.records.get(bt[1], {}).get('fields', []):
+                        if fn == name and fty[0] == 'eig':
+                            ft = fty
             if n.get('isArrow') and b0['kind'] == 'CXXOperatorCallExpr' and self.opname(b0) == '->':
                 el = self.iter_elem(self.inner(b0)[1])
                 return ('field', el, name, ft)
@@ -2052,6 +2073,10 @@ class FnTranslator:
         n = self.strip(n)
         if n['kind'] == 'IntegerLiteral':
             return int(n['value'])
+        if n['kind'] == 'MemberExpr' and n.get('name') in (self.prog.options.get('const_members') or {}) and self.inner(n) and self.strip(self.inner(n)[0])['kind'] == 'CXXThisExpr':
+            # bounded stand-in: the spec fixes the value of a size member for this run (the harness state holds the same value)
+            self.rule('size member %s read as the constant the spec binds it to (bounded stand-in)' % n['name'])
+            return int(self.prog.options['const_members'][n['name']])
         if n['kind'] == 'DeclRefExpr' and n.get('referencedDecl', {}).get('id') in self.consts:
             return self.consts[n['referencedDecl']['id']]
         if n['kind'] == 'DeclRefExpr' and n.get('referencedDecl', {}).get('kind') == 'VarDecl' and n['referencedDecl'].get('id') not in self.vars:
@@ -2691,8 +2716,8 @@ class FnTranslator:
                 return self.quat_to_rot(self.eig(qa[0]))
         if k in ('DeclRefExpr', 'MemberExpr'):
             lv = self.lvalue(n)
-            if t[0] != 'eig' and lv[0] == 'var' and isinstance(lv[-1], tuple) and lv[-1][0] == 'eig':
-                t = lv[-1]          # a dynamic-size local that was declared with the fixed size of its initialiser
+            if t[0] != 'eig' and isinstance(lv[-1], tuple) and lv[-1][0] == 'eig':
+                t = lv[-1]          # a dynamic-size local declared with the fixed size of its initialiser / a member with a size bound by the spec
             return self.eig_of_lv(lv, t)
         if k == 'ImplicitCastExpr':
             ck = n.get('castKind')
@@ -2832,6 +2857,20 @@ class FnTranslator:
                 if t[0] != 'eig':
                     t = self.shape_from_str(node_type(n), n)
                 R, C = t[2], t[3]
+                if R < 0 or C < 0:
+                    # dynamic-size form with run-time size arguments: Identity(r, c), Zero(n), Constant(r, c, v)
+                    dims = [self.const_int(a) for a in (args[:-1] if name == 'Constant' else args)]
+                    if any(d is None for d in dims) or not dims:
+                        self.err(n, 'dynamic-size %s() with non-constant size arguments' % name)
+                    if len(dims) == 1:
+                        R, C = (dims[0], 1) if C == 1 or R < 0 and C >= 0 else (1, dims[0])
+                        if t[3] == 1:
+                            R, C = dims[0], 1
+                    else:
+                        R, C = dims[0], dims[1]
+                    if name == 'Constant':
+                        args = args[-1:]
+                    self.rule('eigen: dynamic-size %s() with constant size arguments' % name)
                 if name == 'Constant':
                     v = self.expr(args[0])
                     self.rule('eigen: Constant()')
@@ -2902,6 +2941,37 @@ class FnTranslator:
                 return EigVal(st, nn, 1, lambda i, j: ('call', 'svd%d_s%d' % (nn, i), list(coeffs), st))
             letter = 'u' if name == 'matrixU' else 'v'
             return EigVal(st, nn, nn, lambda i, j: ('call', 'svd%d_%s%d%d' % (nn, letter, i, j), list(coeffs), st))
+        if name == 'solve' and o0['kind'] == 'CXXMemberCallExpr' and self.callee_decl(o0).get('name') in ('ldlt', 'llt', 'partialPivLu', 'fullPivLu', 'colPivHouseholderQr'):
+            # A.ldlt().solve(B): ASSUMED contract of the decomposition: the result X satisfies A X = B, i.e. X = A^-1 B, written with the
+            # adjugate over the determinant for a 2x2 / 3x3 A (the division carries the obligation det A != 0)
+            A = self.eig(self.inner(self.callee_decl(o0))[0])
+            Bm = self.eig(args[0])
+            nn = A.rows
+            if A.rows != A.cols or nn not in (2, 3) or Bm.rows != nn:
+                self.err(n, 'decomposition solve of a %dx%d system has no contract here' % (A.rows, A.cols))
+            st = A.st
+            mulx = lambda x, y: ('bin', '*', x, y, st)
+            subx = lambda x, y: ('bin', '-', x, y, st)
+            addx = lambda x, y: ('bin', '+', x, y, st)
+            if nn == 2:
+                det = subx(mulx(A.get(0, 0), A.get(1, 1)), mulx(A.get(0, 1), A.get(1, 0)))
+                adj = [[A.get(1, 1), ('un', '-', A.get(0, 1), st)], [('un', '-', A.get(1, 0), st), A.get(0, 0)]]
+            else:
+                def minor(i, j):
+                    rr = [x for x in range(3) if x != i]; cc = [x for x in range(3) if x != j]
+                    return subx(mulx(A.get(rr[0], cc[0]), A.get(rr[1], cc[1])), mulx(A.get(rr[0], cc[1]), A.get(rr[1], cc[0])))
+                cof = [[minor(i, j) if (i + j) % 2 == 0 else ('un', '-', minor(i, j), st) for j in range(3)] for i in range(3)]
+                det = addx(addx(mulx(A.get(0, 0), cof[0][0]), mulx(A.get(0, 1), cof[0][1])), mulx(A.get(0, 2), cof[0][2]))
+                adj = [[cof[j][i] for j in range(3)] for i in range(3)]
+            self.rule('Eigen decomposition solve -> assumed contract X = adj(A) B / det(A) (2x2 / 3x3)')
+
+            def sol(i, j):
+                acc = None
+                for kk in range(nn):
+                    term = mulx(adj[i][kk], Bm.get(kk, j))
+                    acc = term if acc is None else addx(acc, term)
+                return ('bin', '/', acc, det, st)
+            return EigVal(st, nn, Bm.cols, sol)
         a = self.eig(obj)
         if name in EIGEN_PASS:
             r = EigVal(a.st, a.rows, a.cols, a.get, lv=a.lv)
